@@ -87,7 +87,12 @@ def base_snap(src, menu):
     ]]])
     d.apply([["BulkAddRecord", "O", [None, None, None], {"label": ["o1", "o2", "o3"]}]])
     n = len(menu)
-    d.apply([["BulkAddRecord", "T", [None] * n, {"v": list(menu), "u": ["u%d" % (i % 3) for i in range(n)]}]])
+    vals = list(menu)
+    if src.startswith(('Ref', 'Attachments')):
+      # a negative id in a reference cell is a temporary row id (rejected unless the bundle created
+      # it): the reference source types get a dangling positive id instead
+      vals = [9 if isinstance(v, int) and not isinstance(v, bool) and v < 0 else v for v in vals]
+    d.apply([["BulkAddRecord", "T", [None] * n, {"v": vals, "u": ["u%d" % (i % 3) for i in range(n)]}]])
     _BASE[key] = d.snapshot()
   return _BASE[key]
 
